@@ -1,7 +1,7 @@
 """C06 — primitive encodings on the real ``write_struct`` dispatch (and the helpers it calls)."""
 import struct
 
-from vf.harness.common import THOROUGH, Rope, flat, lits, RepC, REAL_FORMATS
+from vf.harness.common import THOROUGH, Rope, flat, lits, RepC, REAL_FORMATS, SHARD_I, SHARD_N
 
 from dliswriter.utils.internal import struct_writer as sw
 from dliswriter.utils.internal.struct_writer import write_struct
@@ -515,6 +515,14 @@ def real_text_len_check(ci, n):
     try:
         if ci == 2:
             r = sw.write_struct_ident(s)          # labels, units, set / object names come this way
+        elif ci >= 3:
+            # a real str as the NAME of an object, encoded as OBNAME (3) / OBJREF (4): origin 1, copy 0
+            z = ZoneItem.__new__(ZoneItem)
+            object.__setattr__(z, 'name', s)
+            object.__setattr__(z, '_origin_reference', 1)
+            object.__setattr__(z, '_copy_number', 0)
+            object.__setattr__(z, '_parent', ZoneSet())
+            r = write_struct(RepC.OBJREF if ci == 4 else RepC.OBNAME, z)
         else:
             r = write_struct(RepC.ASCII if ci == 1 else RepC.IDENT, s)
     except (struct.error, ValueError):
@@ -525,6 +533,8 @@ def real_text_len_check(ci, n):
     if b is None:
         return 3
     pre = [n] if ident else uvari_expect(n)
+    if ci >= 3:
+        pre = ([4, 90, 79, 78, 69] if ci == 4 else []) + [1, 0, n]      # [IDENT 'ZONE'] origin 1, copy 0, name length
     if len(b) != len(pre) + n:
         return 4
     for i in range(len(pre)):
@@ -547,8 +557,9 @@ def _tl_run(ci, n):
 
 def ob_text_len_edges(ci: int, k: int, d: int) -> int:
     """
-    Enumerated window (concrete texts): lengths TL_EDGES +- 1 x IDENT / ASCII by dispatch / IDENT direct.
-    pre: 0 <= ci <= 2 and 0 <= k < N_TL and -1 <= d <= 1
+    Enumerated window (concrete texts): lengths TL_EDGES +- 1 x IDENT / ASCII by dispatch / IDENT direct / object name in OBNAME / in OBJREF.
+    pre: 0 <= ci <= 4 and 0 <= k < N_TL and -1 <= d <= 1
+    pre: ci % SHARD_N == SHARD_I % 5
     post: _ == 0
     """
     return _tl_run(realize(ci), realize(TL_EDGES[realize(k)] + realize(d)))
@@ -556,7 +567,7 @@ def ob_text_len_edges(ci: int, k: int, d: int) -> int:
 
 def reach_text_len_edges(ci: int, k: int, d: int) -> int:
     """
-    pre: 0 <= ci <= 2 and 0 <= k < N_TL and -1 <= d <= 1
+    pre: 0 <= ci <= 4 and 0 <= k < N_TL and -1 <= d <= 1
     post: _ != 0
     """
     return _tl_run(realize(ci), realize(TL_EDGES[realize(k)] + realize(d)))
